@@ -11,6 +11,12 @@
 * `mutables`  module-level names whose *runtime* value is a mutable container (cross-checked with the AST:
                 the name must be assigned at module level).
 * `lruSites`, `roundKeyCacheMax`, `aesCells`, `patchTargets`  runtime values cross-checked with AST literals.
+* `cacheAccesses`  every occurrence, inside a function, of a module-level container that some function writes
+                (`_ROUND_KEY_CACHE`, `_FONT_CACHE`, `_TYPE_REGISTRY`, `_CHAR_MAP_PATCH_ORIGINALS`, ... and every
+                future one): how it is accessed (subscript / `in` / method / bare name), the KEY expression of
+                that access, the name of the lock of the innermost enclosing `with <Name>:` block ("" = none)
+                and the parameters of the enclosing function that the function never rebinds.  The theorems
+                `cache_keys_are_whole_inputs` / `cache_accesses_locked` are decided on it.
 """
 import ast
 import importlib
@@ -170,6 +176,60 @@ def scan_file(rel):
     return sites, temps, lru, modlevel
 
 
+KEYED_METHODS = {"get", "pop", "move_to_end", "setdefault", "__contains__", "__getitem__", "__setitem__", "__delitem__"}
+
+
+def cache_accesses(rel, cells):
+    """[(rel, innermost function (qualified by its outermost function), cell, how, key, guard, stable params)]
+    for every occurrence of one of the module-level names `cells` inside a function of the file."""
+    with open(os.path.join(REPO, rel), encoding="utf-8") as fh:
+        tree = ast.parse(fh.read(), filename=rel)
+    parent = {}
+    for n in ast.walk(tree):
+        for ch in ast.iter_child_nodes(n):
+            parent[ch] = n
+    out = []
+    for n in ast.walk(tree):
+        if not (isinstance(n, ast.Name) and n.id in cells):
+            continue
+        # enclosing functions, innermost first; the locks of the `with` blocks in between
+        funcs, guard = [], ""
+        p = n
+        while p in parent:
+            q = parent[p]
+            if isinstance(q, (ast.With, ast.AsyncWith)) and p in q.body and not guard and not funcs:
+                for it in q.items:
+                    if isinstance(it.context_expr, ast.Name):
+                        guard = it.context_expr.id
+            if isinstance(q, (ast.FunctionDef, ast.AsyncFunctionDef, ast.Lambda)):
+                funcs.append(q)
+            p = q
+        if not funcs:
+            continue            # module level (definition / import-time initialisation)
+        inner = funcs[0]
+        if any(isinstance(a, ast.arg) and a.arg == n.id for a in ast.walk(inner.args)):
+            continue            # a parameter of the same name shadows the module-level cell
+        rebound = {t.id for t in ast.walk(inner) if isinstance(t, ast.Name) and isinstance(t.ctx, (ast.Store, ast.Del))}
+        params = sorted({a.arg for a in ast.walk(inner.args) if isinstance(a, ast.arg)} - rebound)
+        fname = ".".join(getattr(f, "name", "<lambda>") for f in reversed(funcs))
+        par = parent.get(n)
+        how, key = "name", ""
+        if isinstance(par, ast.Subscript) and par.value is n:
+            how = {"Load": "getitem", "Store": "setitem", "Del": "delitem"}[type(par.ctx).__name__]
+            key = ast.unparse(par.slice)
+        elif isinstance(par, ast.Compare) and n in par.comparators and any(isinstance(o, (ast.In, ast.NotIn)) for o in par.ops):
+            how, key = "contains", ast.unparse(par.left)
+        elif isinstance(par, ast.Attribute) and par.value is n:
+            how = "method:" + par.attr
+            call = parent.get(par)
+            if par.attr in KEYED_METHODS and isinstance(call, ast.Call) and call.func is par and call.args:
+                key = ast.unparse(call.args[0])
+        elif isinstance(par, ast.Global):
+            continue
+        out.append((rel, fname, n.id, how, key, guard, params))
+    return sorted(set((a, b, c, d, e, f, tuple(g)) for a, b, c, d, e, f, g in out))
+
+
 def _temp_scoped(f, call):
     """'with' when the temp object is the context expression of a `with` statement (cleanup on every exit)."""
     for n in ast.walk(f):
@@ -274,6 +334,17 @@ def gen_globalwrites() -> str:
     L.append("/-- package functions that call a function which rebinds a module global (other than the patch section) -/")
     L.append("def configCallers : List (Str × Str) := " + lean_list(
         f"({chars(os.path.basename(rel))}, {chars(fn)})" for rel, fn in callers_of(set(rebinders))) + "\n")
+    written = {}
+    for rel, fn, kind, c in sites:
+        if kind in ("mutate", "global-rebind") and any(r == rel and n == c for r, n, _t in mutables):
+            written.setdefault(rel, set()).add(c)
+    acc = []
+    for rel in sorted(written):
+        acc += cache_accesses(rel, written[rel])
+    L.append("/-- every occurrence inside a function of a module-level container that some function writes -/")
+    L.append("def cacheAccesses : List CacheAccess := " + lean_list(
+        f"⟨{chars(os.path.basename(rel))}, {chars(fn)}, {chars(cell)}, {chars(how)}, {chars(key)}, {chars(guard)}, "
+        + "[" + ", ".join(chars(p) for p in params) + "]⟩" for rel, fn, cell, how, key, guard, params in acc) + "\n")
     L.append(f"def cryptProvider : Str := {chars(str(providers.crypt_provider[0]))}\n")
     L.append("/-- translator cross-check notes; must be empty -/")
     L.append("def notes : List String := " + lean_list(lean_str(n) for n in notes) + "\n")
